@@ -546,14 +546,14 @@ func TestShortScalars(t *testing.T) {
 func b64(b []byte) string { return base64.RawURLEncoding.EncodeToString(b) }
 
 func TestMalformedJWK(t *testing.T) {
-	ev.Rule(chkJWK, "deterministic sweep: for each key type a genuine JWS paired with JWKs derived from the right key: unknown / case-variant / empty kty and crv, crv of another curve, missing x, missing y, x or y shortened by its leading byte, left- or right-padded with a zero byte, doubled, off-curve (one bit of y or x flipped), x and y swapped, coordinates of n-y (the other point with the same x), all-zero coordinates, non-base64 coordinates; plus, among 1200 (quick) / 6000 (thorough) keys per type, every key with a leading zero byte in a coordinate re-encoded without it; oracle: every malformed JWK is rejected (never acceptance, never panic); the well-formed JWK is the control")
+	ev.Rule(chkJWK, "deterministic sweep: for each key type a genuine JWS paired with JWKs derived from the right key: unknown / case-variant / empty kty and crv, crv of another curve, missing x, missing y, x or y shortened by its leading byte, left- or right-padded with a zero byte, doubled, off-curve (one bit of y or x flipped), x and y swapped, coordinates of n-y (the other point with the same x), all-zero coordinates, non-base64 coordinates; plus, among 1200 (quick) / 6000 (thorough) keys per type, every key with a leading or trailing zero byte in a coordinate re-encoded without it, also in spellings with a line break that are as long as the right text; oracle: every malformed JWK is rejected (never acceptance, never panic); the well-formed JWK is the control")
 	for _, kt := range keys.AllTypes {
 		for ki := 1; ki <= ev.N(1200, 6000); ki++ {
 			k := keys.Get(kt, "c09j", ki)
 			if ki > 3 {
 				// beyond the first keys only those with a leading zero byte in a coordinate matter
 				kx, ky := k.XY()
-				if kx[0] != 0 && (len(ky) == 0 || ky[0] != 0) {
+				if kx[0] != 0 && kx[len(kx)-1] != 0 && (len(ky) == 0 || (ky[0] != 0 && ky[len(ky)-1] != 0)) {
 					continue
 				}
 			}
@@ -586,6 +586,31 @@ func TestMalformedJWK(t *testing.T) {
 			}
 			if sy, ok := stripLeadingZero(y); ok {
 				add("y re-encoded without its leading zero byte", func(j *JWK) { j.Y = b64(sy) })
+			}
+			// a coordinate that is one byte short - the zero byte at its front or end left out - also in spellings whose
+			// text is as long as the right one (a line break, which base64 decoders skip, makes up for the missing
+			// characters): a reader that pads or measures the text instead of the bytes takes it for the full coordinate
+			withBreak := func(enc string) []string {
+				mid := len(enc) / 2
+				return []string{enc, enc[:mid] + "\n" + enc[mid:], enc + "\n", "\r" + enc, enc[:mid] + "\r\n" + enc[mid:]}
+			}
+			if sx, ok := stripLeadingZero(x); ok {
+				for i, sp := range withBreak(b64(sx))[1:] {
+					sp := sp
+					add(fmt.Sprintf("x without its leading zero byte, spelled with a line break (%d)", i), func(j *JWK) { j.X = sp })
+				}
+			}
+			if x[len(x)-1] == 0 {
+				for i, sp := range withBreak(b64(x[:len(x)-1])) {
+					sp := sp
+					add(fmt.Sprintf("x without its trailing zero byte (spelling %d)", i), func(j *JWK) { j.X = sp })
+				}
+			}
+			if len(y) > 0 && y[len(y)-1] == 0 {
+				for i, sp := range withBreak(b64(y[:len(y)-1])) {
+					sp := sp
+					add(fmt.Sprintf("y without its trailing zero byte (spelling %d)", i), func(j *JWK) { j.Y = sp })
+				}
 			}
 			if ki <= 3 {
 				for _, v := range []string{"", "ec", "okp", "Ec", "RSA", "oct", "EC ", "OKP", "EC"} {
